@@ -54,6 +54,12 @@ class WriterModel:
             h_ = type_head(f_['ty'])
             v_ = self.ctor.get(f_['name'])
             if h_ in cad.adts and h_ != MLW and cad.adts[h_].get('kind') == 'Struct' and v_ is not None and norm(v_)[0] == 'adt' and in_module_of_path(cad, h_, MLW):
+                gs_ = adt_fields(cad, h_) or []
+                if len(gs_) == 1 and str(gs_[0]['name']).isdigit():
+                    # a private newtype (`capacity: Capacity(usize)`): the field stands for what it wraps
+                    fields = [dict(x_, ty=gs_[0]['ty']) if x_['name'] == f_['name'] else x_ for x_ in fields]
+                    self.ctor[f_['name']] = dict(norm(v_)[3]).get(gs_[0]['name'], dict(norm(v_)[3]).get(str(gs_[0]['name'])))
+                    continue
                 for g_ in adt_fields(cad, h_) or []:
                     if g_['name'] not in self.ctor:
                         fields = fields + [g_]
